@@ -37,7 +37,8 @@ BUDGET = {"quick": (3200, 150), "thorough": (48000, 1800)}
 def cases(draw):
     tree = draw(fsmodel.trees())
     spec, _after = draw(fsmodel.change_specs(tree, min_leaves=2, max_leaves=7, allow_rm=True))
-    return {"tree": tree, "spec": spec}
+    # an earlier change that was done and undone again: the redo list is not empty when the composite change is attempted
+    return {"tree": tree, "spec": spec, "prior_undone": draw(st.booleans())}
 
 
 def strategy(tier):
@@ -118,6 +119,13 @@ def _setup(case, phase, fs):
     root = core.fresh_dir("c10")
     fsmodel.write_tree(root, case["tree"])
     project = Project(root, fscommands=fs, ropefolder=None)
+    if case.get("prior_undone") and phase == "do":
+        from rope.base.change import ChangeSet, CreateResource
+
+        prior = ChangeSet("prior")
+        prior.add_change(CreateResource(project.root.get_child("zz_prior.txt") if project.root.has_child("zz_prior.txt") else project.get_file("zz_prior.txt")))
+        project.do(prior)
+        project.history.undo()
     changes = fsmodel.build_change(project, case["spec"], fsmodel.tree_bytes(case["tree"]))
     if phase in ("undo", "redo"):
         project.do(changes)
